@@ -48,3 +48,17 @@ Proof.
   - apply andb_prop in E. destruct E as [E1 E2]. apply Z.leb_le in E1. apply Z.leb_le in E2. lia.
   - apply IH; assumption.
 Qed.
+
+(* the width chosen for an accepted resolution holds every code: bits <= width *)
+Lemma chain_fits ch :
+  chain_ok ch = true ->
+  forall b w, 1 <= b <= 64 -> chain_width ch b = Some w -> b <= w /\ 2 ^ b - 1 < 2 ^ w.
+Proof.
+  intros H b w Hb Hw. destruct (chain_ok_sound ch H b Hb) as [w' [E [Hlt Hin]]].
+  rewrite Hw in E. inversion E; subst w'. split; [|exact Hlt].
+  assert (0 <= w) by (simpl in Hin; lia).
+  destruct (Z_lt_le_dec w b) as [L|L]; [|exact L]. exfalso.
+  assert (2 ^ (w + 1) <= 2 ^ b) by (apply Z.pow_le_mono_r; lia).
+  rewrite Z.pow_add_r in H1 by lia. change (2 ^ 1) with 2 in H1.
+  assert (0 < 2 ^ w) by (apply Z.pow_pos_nonneg; lia). lia.
+Qed.
